@@ -628,8 +628,27 @@ func engineIndexScan(ctx *Ctx) {
 				default: // direct growth of Commands (forces re-allocation)
 					k := 1 + r.Intn(4)
 					extra := vlib.MustLoad(vlib.GenCommands(r, vlib.DBSpec{N: k, Platforms: sp.Platforms})).Commands
+					if r.Intn(3) == 0 {
+						// ... or the caller swaps in a list of its own of the same length
+						sp2 := sp
+						sp2.N = len(db.Commands)
+						if repl := vlib.MustLoad(vlib.GenCommands(r, sp2)).Commands; len(repl) == len(db.Commands) {
+							db.Commands = repl
+							db.BuildUniversalIndex()
+							cdb.InvalidateCache() // (the wrapper was not told: its stored answers point into the list that is gone)
+							hist = append(hist, fmt.Sprintf("Commands = another list of %d; BuildUniversalIndex()", len(repl)))
+							where = "append"
+							ctx.R.Path("steps-followed-by-an-explicit-index-build", 1)
+							return
+						}
+					}
 					db.Commands = append(db.Commands, extra...)
 					hist = append(hist, fmt.Sprintf("append(%d)", k))
+					if r.Intn(2) == 0 { // the caller builds the index itself after changing the list, as the exported method invites to
+						db.BuildUniversalIndex()
+						hist = append(hist, "BuildUniversalIndex()")
+						ctx.R.Path("steps-followed-by-an-explicit-index-build", 1)
+					}
 					where = "append"
 				}
 			})
